@@ -109,6 +109,8 @@ def _static_truth(test, env):
     if isinstance(test, ast.Constant):
         return bool(test.value)
     if isinstance(test, ast.Name) and test.id in env:
+        if type(env[test.id]).__name__ == "NotNone":
+            return None  # truthiness of an array is not a flag
         return bool(env[test.id])
     if isinstance(test, ast.Attribute) and isinstance(test.value, ast.Name):
         key = f"{test.value.id}.{test.attr}"
@@ -155,25 +157,20 @@ def _static_truth(test, env):
     return None
 
 
-class _Specialiser(ast.NodeTransformer):
+def _stores_in(node) -> set[str]:
+    out = set()
+    for n in ast.walk(node):
+        if isinstance(n, ast.Name) and isinstance(n.ctx, (ast.Store, ast.Del)):
+            out.add(n.id)
+        elif isinstance(n, ast.Attribute) and isinstance(
+                n.ctx, ast.Store) and isinstance(n.value, ast.Name):
+            out.add(f"{n.value.id}.{n.attr}")
+    return out
+
+
+class _ExprSpecialiser(ast.NodeTransformer):
     def __init__(self, env):
         self.env = env
-
-    def visit_If(self, node):
-        t = _static_truth(node.test, self.env)
-        if t is True:
-            out = []
-            for s in node.body:
-                r = self.visit(s)
-                out.extend(r if isinstance(r, list) else [r])
-            return out or [ast.copy_location(ast.Pass(), node)]
-        if t is False:
-            out = []
-            for s in node.orelse:
-                r = self.visit(s)
-                out.extend(r if isinstance(r, list) else [r])
-            return out or [ast.copy_location(ast.Pass(), node)]
-        return self.generic_visit(node)
 
     def visit_IfExp(self, node):
         t = _static_truth(node.test, self.env)
@@ -183,22 +180,92 @@ class _Specialiser(ast.NodeTransformer):
             return self.visit(node.orelse)
         return self.generic_visit(node)
 
-    def visit_FunctionDef(self, node):
-        return node  # nested defs untouched
+    def visit_Lambda(self, node):
+        return node
+
+
+class _Specialiser:
+    """Prunes branches decided by ``env``.  A name stops being a known flag
+    as soon as it is (re)assigned; names assigned anywhere inside a loop are
+    dropped before the loop is entered."""
+
+    def __init__(self, env):
+        self.env = dict(env)
+
+    def block(self, stmts):
+        out = []
+        for st in stmts:
+            out.extend(self.stmt(st))
+        return out
+
+    def _drop(self, names):
+        for n in names:
+            self.env.pop(n, None)
+
+    def stmt(self, st):
+        if isinstance(st, (ast.FunctionDef, ast.AsyncFunctionDef,
+                           ast.ClassDef)):
+            return [st]
+        if isinstance(st, ast.If):
+            t = _static_truth(st.test, self.env)
+            if t is True:
+                return self.block(st.body) or [
+                    ast.copy_location(ast.Pass(), st)]
+            if t is False:
+                return self.block(st.orelse) or [
+                    ast.copy_location(ast.Pass(), st)]
+            st.test = _ExprSpecialiser(self.env).visit(st.test)
+            env0 = dict(self.env)
+            st.body = self.block(st.body) or [ast.Pass()]
+            env_a = self.env
+            self.env = dict(env0)
+            st.orelse = self.block(st.orelse)
+            env_b = self.env
+            self.env = {k: v for k, v in env_a.items()
+                        if k in env_b and env_b[k] is v or
+                        (k in env_b and env_b[k] == v)}
+            return [st]
+        if isinstance(st, (ast.For, ast.AsyncFor, ast.While)):
+            self._drop(_stores_in(st))
+            if isinstance(st, ast.While):
+                st.test = _ExprSpecialiser(self.env).visit(st.test)
+            else:
+                st.iter = _ExprSpecialiser(self.env).visit(st.iter)
+            st.body = self.block(st.body) or [ast.Pass()]
+            st.orelse = self.block(st.orelse)
+            return [st]
+        if isinstance(st, (ast.With, ast.AsyncWith)):
+            self._drop(_stores_in(ast.Module(
+                body=[], type_ignores=[])) )
+            for item in st.items:
+                item.context_expr = _ExprSpecialiser(self.env).visit(
+                    item.context_expr)
+                if item.optional_vars is not None:
+                    self._drop(_stores_in(item.optional_vars))
+            st.body = self.block(st.body) or [ast.Pass()]
+            return [st]
+        if isinstance(st, ast.Try):
+            self._drop(_stores_in(st))
+            st.body = self.block(st.body) or [ast.Pass()]
+            for h in st.handlers:
+                h.body = self.block(h.body) or [ast.Pass()]
+            st.orelse = self.block(st.orelse)
+            st.finalbody = self.block(st.finalbody)
+            return [st]
+        new = _ExprSpecialiser(self.env).visit(st)
+        self._drop(_stores_in(st))
+        return [new]
 
 
 def specialise(fnode, env: dict):
-    """Deep copy of the function with branches decided by ``env`` pruned.
-    Assignments to a name in ``env`` invalidate nothing here: callers must
-    only pass names that are never re-assigned (checked by
-    ``is_never_reassigned``)."""
+    """Deep copy of the function with the branches decided by ``env``
+    (name or 'obj.attr' -> constant) pruned."""
     new = copy.deepcopy(fnode)
+    if isinstance(new, ast.Lambda):
+        new.body = _ExprSpecialiser(env).visit(new.body)
+        return new
     sp = _Specialiser(env)
-    body = []
-    for s in new.body:
-        r = sp.visit(s)
-        body.extend(r if isinstance(r, list) else [r])
-    new.body = body
+    new.body = sp.block(new.body) or [ast.Pass()]
     ast.fix_missing_locations(new)
     return new
 
@@ -228,6 +295,7 @@ class DefUse:
         self.env_before: dict[int, dict] = {}  # id(stmt) -> env (snapshot)
         self.env_after: dict[int, dict] = {}
         self.exit_envs = []
+        self.unreachable: set[int] = set()
         self.attr_stores = []
         self._loops = []
         self._tries = []
@@ -420,9 +488,9 @@ class DefUse:
     def _block(self, stmts, env):
         for st in stmts:
             if env is None:
-                # unreachable: still record (empty) so lookups work
-                env_dead = {}
-                self._stmt(st, env_dead)
+                # unreachable code after return/raise/break/continue
+                for sub in ast.walk(st):
+                    self.unreachable.add(id(sub))
                 continue
             env = self._stmt(st, env)
         return env
@@ -817,7 +885,8 @@ class Terms:
         """Terms of every ``return`` value, with the return node."""
         out = []
         for n in _walk_own_stmts(self.du.fnode):
-            if isinstance(n, ast.Return):
+            if isinstance(n, ast.Return) and id(n) not in \
+                    self.du.unreachable:
                 out.append((n, self.of(n.value) if n.value is not None
                             else ("const", None)))
         if isinstance(self.du.fnode, ast.Lambda):
